@@ -263,6 +263,17 @@ def pathReadlink (fds : Fds) (m : Mem) (fd p len buf bufLen res : Nat) : List Re
 /-- descriptor number `Table.Insert` hands out, and the table afterwards -/
 def insertFd (fds : Fds) (k : Kind) : Fds × Nat × Bool := DescTable.insert fds k
 
+/-- path_open after `OpenFile` succeeded with a file of kind `k`: the descriptor is inserted (lowest free number)
+and written to the result; no alternative when the table is full or the result pointer is outside (the new
+descriptor is closed again: an errno, covered by `nz`). `alloc`: 8 bytes per new item slot of the table. -/
+def pathOpened (fds : Fds) (m : Mem) (res : Nat) (k : Kind) : List Res :=
+  match insertFd fds k with
+  | (_, _, false) => []
+  | (t, newFd, true) =>
+    if m.has res 4 then [{ err := .errno 0, writes := [Wr.bytes res (bytesLE 4 newFd)], fds := some t,
+                           alloc := 8 * (DescTable.slots t - DescTable.slots fds) }]
+    else []
+
 def pathOpen (fds : Fds) (m : Mem) (fd p len oflags res : Nat) : List Res :=
   match atPath fds m fd p len with
   | some e => rE e
@@ -272,15 +283,8 @@ def pathOpen (fds : Fds) (m : Mem) (fd p len oflags res : Nat) : List Res :=
     let isDir := (o / 2) % 2 = 1          -- O_DIRECTORY
     if isDir ∧ o % 2 = 1 then rE einval else    -- O_DIRECTORY with O_CREAT
     -- OpenFile fails, the descriptor table is full, or the opened file is not the directory that was asked for:
-    -- an errno, table as before.  Otherwise a descriptor is inserted (lowest free number) and written to the result.
-    let opened := fun (k : Kind) =>
-      match insertFd fds k with
-      | (_, _, false) => ([] : List Res)
-      | (t, newFd, true) =>
-        if m.has res 4 then [{ err := .errno 0, writes := [Wr.bytes res (bytesLE 4 newFd)], fds := some t,
-                               alloc := 8 * (DescTable.slots t - DescTable.slots fds) }]
-        else []     -- the new descriptor is closed again: EFAULT, covered by `nz`
-    { err := .nz } :: (opened .dir ++ (if isDir then [] else opened .file))
+    -- an errno, table as before.  Otherwise see `pathOpened`.
+    { err := .nz } :: (pathOpened fds m res .dir ++ (if isDir then [] else pathOpened fds m res .file))
 
 /-- path_rename, path_link: two `atPath`, then the host file system (ENOSYS across file systems included) -/
 def pathOp2 (fds : Fds) (m : Mem) (fd1 p1 len1 fd2 p2 len2 : Nat) : List Res :=
@@ -302,6 +306,10 @@ def pathSymlink (fds : Fds) (m : Mem) (old oldLen fd new newLen : Nat) : List Re
 
 /-! ### sockets (sock.go, FSContext.SockAccept) -/
 
+/-- a write whose result the host code does not look at: it happens when the pointer is inside the memory -/
+def optRegion (m : Mem) (off len : Nat) : List Wr := if m.has off len then [Wr.region off len] else []
+def optBytes (m : Mem) (off : Nat) (bs : List Nat) : List Wr := if m.has off bs.length then [Wr.bytes off bs] else []
+
 def sockAccept (fds : Fds) (m : Mem) (fd res : Nat) : List Res :=
   match lookupFd fds fd with
   | some .lsn =>
@@ -312,7 +320,7 @@ def sockAccept (fds : Fds) (m : Mem) (fd res : Nat) : List Res :=
        | (_, _, false) => []
        | (t, newFd, true) =>
          [{ err := .errno 0, fds := some t, alloc := 8 * (DescTable.slots t - DescTable.slots fds),
-            writes := if m.has res 4 then [Wr.bytes res (bytesLE 4 newFd)] else [] }])
+            writes := optBytes m res (bytesLE 4 newFd) }])
   | _ => rE ebadf
 
 /-- the buffers of the iovec array that `readv` can hand to the reader: those inside the memory -/
@@ -320,7 +328,6 @@ def iovWritable (m : Mem) (iovs iovsStop : Nat) : List Wr :=
   ((iovRegions m iovs (min (iovsStop / 8) (m.size / 8 + 1)) 0).filter (fun r => m.has r.1 r.2)).map
     (fun r => Wr.region r.1 r.2)
 
-def optRegion (m : Mem) (off len : Nat) : List Wr := if m.has off len then [Wr.region off len] else []
 
 def sockRecv (fixed : Bool) (fds : Fds) (m : Mem) (fd iovs cnt riFlags res roFlags : Nat) : List Res :=
   match lookupFd fds fd with
@@ -330,12 +337,10 @@ def sockRecv (fixed : Bool) (fds : Fds) (m : Mem) (fd iovs cnt riFlags res roFla
     if f % 2 = 1 then
       -- RI_RECV_PEEK: the first iovec only
       let done := fun (ws : List Wr) =>
-        ({ err := .errno 0, writes := ws ++ optRegion m res 4 ++
-            (if m.has roFlags 2 then [Wr.bytes roFlags [0, 0]] else []) } : Res)
+        ({ err := .errno 0, writes := ws ++ optRegion m res 4 ++ optBytes m roFlags [0, 0] } : Res)
       -- repaired variant: no iovec, nothing to peek into (ro_datalen = 0); the iovec is read as one 8-byte access
       if fixed && decide (cnt = 0) then
-        [{ err := .errno 0, writes := (if m.has res 4 then [Wr.bytes res (bytesLE 4 0)] else []) ++
-            (if m.has roFlags 2 then [Wr.bytes roFlags [0, 0]] else []) }] else
+        [{ err := .errno 0, writes := optBytes m res (bytesLE 4 0) ++ optBytes m roFlags [0, 0] }] else
       if fixed && !m.has iovs 8 then rE einval else
       if !m.has iovs 4 then rE einval else
       let p4 := if fixed then iovs + 4 else w32 (iovs + 4)
@@ -360,7 +365,7 @@ def sockSend (fds : Fds) (m : Mem) (fd iovs cnt siFlags res : Nat) : List Res :=
     match writevLoop .unknown m iovs iovsStop (iovsStop / 8 + 1) 0 [] 0 with
     | (_, _, some .any) => [{ err := .any, writes := optRegion m res 4 }]
     | (_, _, some e) => rE e
-    | (_, nw, none) => [{ err := .errno 0, writes := if m.has res 4 then [Wr.bytes res (bytesLE 4 nw)] else [] }]
+    | (_, nw, none) => [{ err := .errno 0, writes := optBytes m res (bytesLE 4 nw) }]
   | _ => rE ebadf
 
 def sockShutdown (fds : Fds) (fd how : Nat) : List Res :=
